@@ -767,6 +767,44 @@ theorem image_allBlks (cfg : Cfg) (hv : cfg.valid) (nf : Bool) (t : Nat) (fuel :
         simp only [List.map_nil, image_nil]
         rw [if_neg hc, htake, toBlock_at cfg t a d _ nf no x (by omega) (by omega)]
 
+/-! ### no address twice within one write -/
+
+theorem allBlks_addr_ge (cfg : Cfg) (nf : Bool) (fuel : Nat) :
+    ∀ (d : List UInt8) (a no : Nat), ∀ b ∈ allBlks cfg nf fuel d a no, a ≤ b.addr := by
+  induction fuel with
+  | zero => intro d a no b hb; simp [allBlks] at hb
+  | succ f ih =>
+    intro d a no b hb
+    by_cases hd : d = []
+    · subst hd; simp [allBlks] at hb
+    · have hemp : d.isEmpty = false := by simpa using hd
+      simp only [allBlks, hemp, Bool.false_eq_true, if_false] at hb
+      rcases List.mem_cons.mp hb with h | h
+      · subst h; exact Nat.le_refl _
+      · have := ih _ _ _ b h; omega
+
+/-- the address ranges `[addr, addr + payload size)` of the blocks of one `write_all` are consecutive and
+pairwise disjoint -/
+theorem allBlks_disjoint (cfg : Cfg) (hv : cfg.valid) (nf : Bool) (fuel : Nat) :
+    ∀ (d : List UInt8) (a no : Nat),
+      List.Pairwise (fun b c : Blk => b.addr + b.blen ≤ c.addr) (allBlks cfg nf fuel d a no) := by
+  obtain ⟨hps1, hps2, hal1, hdiv⟩ := hv
+  induction fuel with
+  | zero => intro d a no; simp [allBlks]
+  | succ f ih =>
+    intro d a no
+    by_cases hd : d = []
+    · subst hd; simp [allBlks]
+    · have hemp : d.isEmpty = false := by simpa using hd
+      simp only [allBlks, hemp, Bool.false_eq_true, if_false]
+      refine List.Pairwise.cons ?_ (ih _ _ _)
+      intro c hc
+      have := allBlks_addr_ge cfg nf f _ _ _ c hc
+      simp only
+      split
+      · omega
+      · have := roundUp_le_of_dvd d.length cfg.al cfg.ps (by omega) hdiv (by omega); omega
+
 /-! ### histories -/
 
 /-- the blocks one operation appends (none when it is rejected) -/
